@@ -26,15 +26,17 @@ pub fn run(args: &Args) -> i32 {
     let check = Check::new(
         args,
         "fault_enumeration",
-        "exhaustive matrix: expected peer {given, none} x remote authenticates as {expected, other, local} x {1,2} concurrent attempts, each under \
+        "exhaustive matrix: expected peer {none, target, own id} x remote authenticates as {expected, other, local} x {1,2} concurrent attempts, each under \
          many PRNG schedules (swarm/task order, byte chunking); non-trivial = every case (each ends in an established or rejected connection); \
          distinct by (matrix cell, scheduler decision hash)",
     );
     let reps = args.tier.pick(1_500u64, 60_000);
-    let cells: Vec<(bool, u8, u8)> = [true, false].iter().flat_map(|e| (0..3u8).flat_map(move |a| (1..3u8).map(move |k| (*e, a, k)))).collect();
+    // expectation: 0 = none, 1 = the target B, 2 = the dialer's own peer id
+    let cells: Vec<(u8, u8, u8)> = (0..3u8).flat_map(|e| (0..3u8).flat_map(move |a| (1..3u8).map(move |k| (e, a, k)))).collect();
     let n = cells.len() as u64 * reps;
     vmon::par_cases(&check, n, args.threads, |idx, rng: &mut Rng| {
-        let (expect_given, auth_as, attempts) = cells[(idx % cells.len() as u64) as usize];
+        let (expect_kind, auth_as, attempts) = cells[(idx % cells.len() as u64) as usize];
+        let expect_given = expect_kind != 0;
         let mut net: Net<Probe> = Net::new(rng.next_u64(), rng.chance(1, 2));
         let ka = vnet::keypair(rng.next_u64());
         let kb = vnet::keypair(rng.next_u64());
@@ -52,6 +54,7 @@ pub fn run(args: &Args) -> i32 {
             _ => 3,
         };
         let obtained = net.peer(target_node);
+        let expected = if expect_kind == 2 { a } else { b };
         let mut events: Vec<(usize, String)> = vec![];
         let mut est_at_dialer: Vec<PeerId> = vec![];
         let mut err_at_dialer: Vec<String> = vec![];
@@ -78,7 +81,7 @@ pub fn run(args: &Args) -> i32 {
         net.run(rng.range(0, 30), &mut sink);
         for _ in 0..attempts {
             let addr = mem(100 + target_node as u64);
-            let o = if expect_given { DialOpts::peer_id(b).addresses(vec![addr]).condition(PeerCondition::Always).build() } else { DialOpts::unknown_peer_id().address(addr).build() };
+            let o = if expect_given { DialOpts::peer_id(expected).addresses(vec![addr]).condition(PeerCondition::Always).build() } else { DialOpts::unknown_peer_id().address(addr).build() };
             net.swarm(0).dial(o).expect("dial accepted");
             net.touch(0);
             net.run(rng.range(0, 20), &mut sink);
@@ -89,15 +92,16 @@ pub fn run(args: &Args) -> i32 {
             return;
         }
         let auth_name = ["expected", "other", "local"][auth_as as usize];
-        let wit = json!({"expected_given": expect_given, "remote_authenticates_as": auth_name, "attempts": attempts,
+        let exp_name = ["none", "target", "own-peer-id"][expect_kind as usize];
+        let wit = json!({"expected": exp_name, "remote_authenticates_as": auth_name, "attempts": attempts,
             "events": events.iter().map(|(i, e)| format!("n{i}:{e}")).collect::<Vec<_>>()});
-        let should_establish = obtained != a && (!expect_given || obtained == b);
+        let should_establish = obtained != a && (!expect_given || obtained == expected);
         for p in &est_at_dialer {
             if *p == a {
                 check.violation("established-with-local-peer-id", "dialer reported a connection to its own peer id as established", wit.clone());
             }
-            if expect_given && *p != b {
-                check.violation("established-with-unexpected-peer", format!("dial for {b} established with {p}"), wit.clone());
+            if expect_given && *p != expected {
+                check.violation("established-with-unexpected-peer", format!("dial for {expected} established with {p}"), wit.clone());
             }
             if *p != obtained {
                 check.violation("established-peer-not-authenticated-peer", format!("transport authenticated {obtained}, reported {p}"), wit.clone());
@@ -113,7 +117,7 @@ pub fn run(args: &Args) -> i32 {
                 check.violation("legitimate-dial-not-established", format!("{} of {attempts} legitimate dials established; errors {err_at_dialer:?}", est_at_dialer.len()), wit.clone());
             }
         } else {
-            let want = if expect_given && obtained != b { "WrongPeerId" } else { "LocalPeerId" };
+            let want = if expect_given && obtained != expected { "WrongPeerId" } else { "LocalPeerId" };
             if err_at_dialer.len() != attempts as usize || err_at_dialer.iter().any(|k| k != want) {
                 check.violation(format!("wrong-rejection-kind:{want}"), format!("expected {attempts}x {want}, got {err_at_dialer:?}"), wit.clone());
             }
@@ -127,10 +131,10 @@ pub fn run(args: &Args) -> i32 {
                 check.violation("rejected-connection-not-closed", format!("raw connections {open:?} of the rejected dial are still open at quiescence"), wit.clone());
             }
         }
-        let sig = Sig::new().u64(expect_given as u64).u64(auth_as as u64).u64(attempts as u64).u64(net.trace.0).0;
+        let sig = Sig::new().u64(expect_kind as u64).u64(auth_as as u64).u64(attempts as u64).u64(net.trace.0).0;
         check.case(sig, true);
         check.count(if should_establish { "cases_established" } else { "cases_rejected" }, 1);
-        check.distinct("matrix_cells", (expect_given as u64) * 100 + (auth_as as u64) * 10 + attempts as u64);
+        check.distinct("matrix_cells", (expect_kind as u64) * 100 + (auth_as as u64) * 10 + attempts as u64);
         if check.want_sample() && idx % 5 == 0 {
             check.sample(wit);
         }
